@@ -1,6 +1,9 @@
 package internal
 
-import "math"
+import (
+	"math"
+	"math/bits"
+)
 
 // Percentage is a helper function, to calculate percentage.
 func Percentage(total, current, width uint) float64 {
@@ -10,7 +13,13 @@ func Percentage(total, current, width uint) float64 {
 	if current >= total {
 		return float64(width)
 	}
-	return float64(width*current) / float64(total)
+	hi, lo := bits.Mul64(uint64(width), uint64(current))
+	if hi == 0 {
+		return float64(lo) / float64(total)
+	}
+	// width*current doesn't fit in 64 bits, current < total implies hi < total
+	quo, rem := bits.Div64(hi, lo, uint64(total))
+	return float64(quo) + float64(rem)/float64(total)
 }
 
 // PercentageRound same as Percentage but with math.Round.
